@@ -146,9 +146,9 @@ def run(ctx):
         'the pyvc generator (re-reading the working tree) and discharged by z3 (cvc5 as second solver): distance = '
         'Wagner-Fischer value LEV(n,m) for all sequences and all costs >= 1; every returned alignment (pairs / path) '
         'projects onto both inputs and costs LEV(n,m) (backtrack-matrix certificate invariant); substring distance = '
-        'min_i SEL(i,m) (Sellers). levenshtein_alignment_substring, edit_stats_for_alignment, ErrorsSummary.from_lists '
-        'and aggregate are NOT proved: they are covered by the bounded run-time contract (exhaustive small domain) only.')
-    keys = [(seqalign.PATH, k) for k in PROOF_KEYS]
+        'min_i SEL(i,m) (Sellers); ErrorsSummary.aggregate: every total is the sum over the list. levenshtein_alignment_substring, '
+        'edit_stats_for_alignment and ErrorsSummary.from_lists are NOT proved: bounded run-time contract (exhaustive small domain) only.')
+    keys = [(seqalign.PATH, k) for k in PROOF_KEYS] + [(seqalign.ES_PATH, 'ErrorsSummary.aggregate')]
     reps = vrun.verify(keys, seqalign.CONTRACTS, root=core.repo_root(), both=thorough)
     ctx.add_proof_reports(reps, clause='distance / alignment / path / substring distance equal the spec functions')
     # spec validation: LEV means "minimum over all edit scripts"
